@@ -847,7 +847,7 @@ func (lc *linCtx) prove(goal linExpr) bool {
 	total := 1
 	for _, d := range rel {
 		total *= len(d)
-		if total > 4096 {
+		if total > 60000 {
 			return false
 		}
 	}
